@@ -359,6 +359,13 @@ def run(chk: harness.Check):
             chk.fail("C04.D1-provenance", key, where, f"reviewed as a defect: {e['reason']}")
         else:
             chk.ok("C04.D1-provenance", key, f"{where}: `{op} {detail}` reviewed — {e['reason']}")
+            # the reviewed reason may rest on an invariant elsewhere in the code: re-verify it on every run
+            for req in e.get("requires", []):
+                import c03
+                okr, why = c03.check_requirement(F, None, None, req)   # only `infn:` requirements are used here
+                chk.expect(okr, "C04.D1-discharge", f"{key}|{req}", where,
+                           f"the invariant that makes the reviewed `{op} {detail}` in {region} land on a char boundary no longer holds: {why} — reviewed reason: {e['reason']}",
+                           sample=f"{where}: `{op} {detail}` relies on {req}")
     chk.ok("C04.D1-provenance", "all other offset slices", f"{n_sinks} constructor arguments, {P.stats['nodes']} slice nodes, {P.stats['sources']} boundary sources, "
            f"{sum(v for k, v in P.stats.items() if k.startswith('obligations:'))} moved obligations: only boundary-preserving nodes")
     chk.analysed = {"facts": th, "sink_arguments": n_sinks, **{k: v for k, v in P.stats.items()}}
